@@ -140,6 +140,9 @@ def gen_cascade(rnd, n=None, mapped=True):
         return spec
     # per-Einsum mapping
     for i, e in enumerate(spec.exprs):
+        if sum(1 for e2 in spec.exprs if e2.out.name == e.out.name) > 1:
+            # mapping sections are keyed by output name: both writers would share the entry
+            continue
         info = _einsum_info(spec, e)
         single = len(e.terms) == 1
         choice = rnd.choice(["none", "loop", "shape", "shape", "occ", "flat"])
